@@ -10,7 +10,9 @@ var (
 	verifShardA = ShardKey{Cluster: cluster.ID("a"), Provider: "Kubernetes"}
 	verifShardB = ShardKey{Cluster: cluster.ID("b"), Provider: "Kubernetes"}
 	verifShards = []ShardKey{verifShardA, verifShardB}
-	verifSvcs   = []string{"svc1", "svc2"}
+	// two services that share one hostname in different namespaces (colliding ServiceEntries) - the index is
+	// keyed hostname -> namespace -> shards, so this exercises both levels
+	verifSvcs   = []string{"ns1", "ns2"}
 )
 
 func verifMkEp(addr, sa string, h HealthStatus) *IstioEndpoint {
@@ -56,7 +58,7 @@ func verifSameList(a, b []*IstioEndpoint) bool {
 // registry shard, exactly the last reported list; nothing of a removed shard / deleted service remains.
 func VerifC13Sequential() {
 	idx := NewEndpointIndex(DisabledCache{})
-	latest := map[string]map[ShardKey][]*IstioEndpoint{"svc1": {}, "svc2": {}}
+	latest := map[string]map[ShardKey][]*IstioEndpoint{"ns1": {}, "ns2": {}}
 	sawEmptyReport := map[string]bool{}
 	sawRemoval := map[string]bool{}
 	depth := 3 + vp.Tier()
@@ -69,7 +71,7 @@ func VerifC13Sequential() {
 			eps := verifEpList(p)
 			old := latest[svc][sh]
 			_, known := latest[svc][sh]
-			pt := idx.UpdateServiceEndpoints(sh, svc, "ns", eps, true)
+			pt := idx.UpdateServiceEndpoints(sh, "svc1", svc, eps, true)
 			if len(eps) == 0 {
 				delete(latest[svc], sh)
 				sawEmptyReport[svc] = true
@@ -88,24 +90,24 @@ func VerifC13Sequential() {
 		case 1: // service deleted in one registry
 			sh := verifShards[vp.Choice(p+".shard", 2)]
 			svc := verifSvcs[vp.Choice(p+".svc", 2)]
-			idx.DeleteServiceShard(sh, svc, "ns", false)
+			idx.DeleteServiceShard(sh, "svc1", svc, false)
 			delete(latest[svc], sh)
 			sawRemoval[svc] = true
 		case 2: // registry (cluster) removed
 			sh := verifShards[vp.Choice(p+".shard", 2)]
 			idx.DeleteShard(sh)
-			delete(latest["svc1"], sh)
-			delete(latest["svc2"], sh)
-			sawRemoval["svc1"], sawRemoval["svc2"] = true, true
+			delete(latest["ns1"], sh)
+			delete(latest["ns2"], sh)
+			sawRemoval["ns1"], sawRemoval["ns2"] = true, true
 		case 3: // prune after resync: keep only svc1
 			sh := verifShards[vp.Choice(p+".shard", 2)]
-			idx.PruneShard(sh, map[string]sets.String{"svc1": sets.New("ns")})
-			delete(latest["svc2"], sh)
-			sawRemoval["svc2"] = true
+			idx.PruneShard(sh, map[string]sets.String{"svc1": sets.New("ns1")})
+			delete(latest["ns2"], sh)
+			sawRemoval["ns2"] = true
 		}
 		vp.Reach("step")
 		for _, svc := range verifSvcs {
-			shards, ok := idx.ShardsForService(svc, "ns")
+			shards, ok := idx.ShardsForService("svc1", svc)
 			for _, sh := range verifShards {
 				want, has := latest[svc][sh]
 				if has {
